@@ -48,5 +48,6 @@ for f in sorted(glob.glob(RES + "/C??.txt")):
         }
         if key in AFTER:
             meta["confirmed"]["check_result_after_widening"] = AFTER[key]
+        meta["confirmed"]["check_result"] = meta["confirmed"].get("check_result_after_widening", initial)
         json.dump(meta, open(dst + "/meta.json", "w"), indent=1)
         print("kept", dst, "|", initial[:60], "|", tests[:40])
